@@ -1,5 +1,6 @@
 import Orb.Proto
 import Orb.Planar
+import Orb.PlanarScale
 
 /-! Driver for C10 (planar area, centroid, length, distance). -/
 namespace Driver.C10
@@ -15,7 +16,8 @@ def qabs (x : Q) : Q := if x < 0 then -x else x
 def qmax (a b : Q) : Q := if a < b then b else a
 def qmin (a b : Q) : Q := if b < a then b else a
 
-/-- square root on rationals: exact on squares of rationals, otherwise correct to 40 decimal digits
+/-- square root on rationals: exact on squares of rationals, otherwise correct to a RELATIVE 1e-40
+    (`√(n/d) = √(n·d)/d`, the integer root taken of `n·d·10^80`), whatever the magnitude — tiny and huge pools included
     (only ever compared under the 1e-9 tolerance of the property's quantifier) -/
 def sqrtQ (x : Q) : Q :=
   if x ≤ 0 then 0 else
@@ -25,7 +27,7 @@ def sqrtQ (x : Q) : Q :=
   let sd := Nat.sqrt d
   if sn * sn == n && sd * sd == d then (sn : Q) / (sd : Q) else
   let k : Nat := 10 ^ 40
-  (Nat.sqrt (n * k * k / d) : Q) / (k : Q)
+  (Nat.sqrt (n * d * k * k) : Q) / ((k * d : Nat) : Q)
 
 def tolRel : Q := 1 / 1000000000
 def tolAbs : Q := 1 / 1000000000000
@@ -72,14 +74,36 @@ def normG {α} : GVal α → Option (Geom α)
   | .nilSlice k => some (emptyOfK k)
   | .val g => some g
 
-/-- integer coordinates with |v| ≤ 2^20 (the exact part of the property's quantifier) -/
-def isIntDomain (g : Geom UInt64) : Bool :=
-  (coords g).all fun b => match bitsToInt? b with
-    | some i => i.natAbs ≤ 2 ^ 20
-    | none => false
+/-- 2-adic valuation of a non-zero dyadic rational (`num / 2^j`): the exponent of its lowest set bit -/
+def v2Q (q : Q) : Int :=
+  let rec tz (fuel : Nat) (n : Nat) (acc : Nat) : Nat :=
+    match fuel with
+    | 0 => acc
+    | fuel + 1 => if n != 0 && n % 2 == 0 then tz fuel (n / 2) (acc + 1) else acc
+  (tz 2200 q.num.natAbs 0 : Int) - (Nat.log2 q.den : Int)
 
+/-- the exact part of the property's quantifier: integer coordinates with |v| ≤ 2^20 — or, white-box round, such a
+    lattice times ONE power of two (`n·2^e`, |n| ≤ 2^20, the same `e` for every coordinate; tiny and huge pools):
+    multiplying by `2^e` is exact, so areas, squared distances and clamped distances are exact there as well.
+    `e` is the largest exponent with every coordinate a multiple of `2^e`. -/
+def isDyadicList (bs : List UInt64) : Bool :=
+  match bs.mapM bitsToRat? with
+  | none => false
+  | some qs =>
+    let nz := qs.filter (· != 0)
+    match nz with
+    | [] => true
+    | q0 :: _ =>
+      let e : Int := nz.foldl (fun m q => min m (v2Q q)) (v2Q q0)
+      let u : Q := if e ≥ 0 then ((2 : Q) ^ e.toNat) else 1 / ((2 : Q) ^ (-e).toNat)
+      nz.all fun q => qabs q ≤ u * ((2 : Q) ^ 20)
+
+def isIntDomain (g : Geom UInt64) : Bool := isDyadicList (coords g)
+
+/-- the coordinate scale of a case: the largest coordinate magnitude (no floor: a case from a tiny pool is judged
+    relative to ITS scale; all coordinates zero: scale 0, everything is then exact) -/
 def scaleOf (g : Geom Q) (extra : List Q := []) : Q :=
-  ((coords g) ++ extra).foldl (fun m c => qmax m (qabs c)) 1
+  ((coords g) ++ extra).foldl (fun m c => qmax m (qabs c)) 0
 
 /-! ### the independent exact specification (rationals) -/
 
@@ -450,7 +474,7 @@ def handleRingVar (inp out : Toks) : String :=
       -- integer lattice (|v| ≤ 2^20, translate included): areas exactly; otherwise (general-position floats): areas
       -- and centroids within the quantifier's relative 1e-9, a variant whose Float twin is itself farther than that
       -- from its exact instance being rounding-sensitive (as in 'ca')
-      let intDom := isIntDomain (.ring rU) && isIntDomain (.point tU)
+      let intDom := isDyadicList (coords (.ring rU) ++ [tU.x, tU.y])
       let m := scaleOf (.ring rq) [tq.x, tq.y] * 2
       let base := ringMom rq
       let triple (i : Nat) : Q × Q × Q := (vals.getD (3 * i) 0, vals.getD (3 * i + 1) 0, vals.getD (3 * i + 2) 0)
@@ -649,6 +673,84 @@ def handleSeg (inp out : Toks) : String :=
     | none, _ => "skip non-finite-input"
     | _, _ => "skip non-finite-output"
 
+/-! ### scale invariance by powers of two (white-box round) -/
+
+/-- the float64 `2^k` (|k| ≤ 1022) -/
+def pow2F (k : Int) : Float := (1.0 : Float).scaleB k
+
+/-- `2^k · g` in float64: the model's `scaleGeom` with the factor `2^k` (a multiplication by a power of two is exact as
+    long as nothing under- or overflows, and always equal to Go's `math.Ldexp(x, k)`: both are correctly rounded) -/
+def scaleF (k : Int) (g : Geom Float) : Geom Float := scaleGeom (pow2F k) g
+
+def tokF? (t : String) : Option Float := (hexToNat? t).map fun n => Float.ofBits (UInt64.ofNat n)
+
+/-- the eight outcome tokens of op `scale` for one geometry and query point, from the Float twin of the model:
+    `cx cy area area' length dist index dist'` -/
+def scaleTwin (g : Option (Geom Float)) (p : Pt Float) : List String :=
+  match g with
+  | none => [fbits 0, fbits 0, fbits 0, fbits 0, fbits 0, "7ff0000000000000", "-1", "7ff0000000000000"]
+  | some gF =>
+    let ca := centroidArea Float.sqrt gF
+    let d := distanceFromWithIndex Float.sqrt p gF
+    [fbits ca.1.x, fbits ca.1.y, fbits ca.2, fbits (area Float.sqrt gF), fbits (length Float.sqrt gF),
+     optTok d.1, toString d.2, optTok (distanceFrom Float.sqrt gF p)]
+
+/-- names and degrees (power of the scale factor) of the eight outcome components; the index has no degree -/
+def scaleComps : List (String × Option Int) :=
+  [("centroid-x", some 1), ("centroid-y", some 1), ("area", some 2), ("area-fn", some 2), ("length", some 1),
+   ("distance", some 1), ("index", none), ("distance-fn", some 1)]
+
+/-- the components on which `scaled` is NOT exactly `2^(k·degree) · base` (bit for bit; the index: equal) -/
+def scaleBroken (k : Int) (base scaled : List String) : List String :=
+  ((scaleComps.zip (base.zip scaled)).filterMap fun ((nm, deg), (b, s)) =>
+    match deg with
+    | none => if b == s then none else some nm
+    | some d =>
+      (match tokF? b with
+       | some bf => if sameTok (fbits (bf.scaleB (k * d))) s then none else some nm
+       | none => some nm))
+
+/-- `scale k <gval> px py => <8 outcomes of (g, p)> <8 outcomes of (2^k g, 2^k p)>`: the executable clause
+    `CentroidArea(2^k g) = (2^k c, 4^k a)`, `Length(2^k g) = 2^k Length(g)`,
+    `DistanceFromWithIndex(2^k g, 2^k p) = (2^k d, i)`, bit for bit (theorems `centroidArea_scale`, `length_scale`,
+    `distanceFromWithIndex_scale` over an ordered field; in float64 a multiplication by a power of two is exact).
+    Under- or overflow is a property of the MODEL: the clause is judged only on the components on which the Float twin
+    of the model is itself exactly scale-covariant (otherwise `skip scale-inexact`). -/
+def handleScale (inp out : Toks) : String :=
+  match (do
+    let (k, i) ← Orb.Proto.int inp
+    let (v, i) ← gval i
+    let (p, _) ← pt i
+    pure (k, v, p)) with
+  | none => "bad input"
+  | some (k, v, pU) =>
+    if out == ["panic"] then "propfail panic" else
+    if out.length != 16 then "bad output" else
+    let gF := (normG v).map toF
+    let pF := mapPt Float.ofBits pU
+    let twB := scaleTwin gF pF
+    let twS := scaleTwin (gF.map (scaleF k)) (scalePt (pow2F k) pF)
+    let outB := out.take 8
+    let outS := out.drop 8
+    let agree := twB.getD 6 "" == outB.getD 6 "?" && twS.getD 6 "" == outS.getD 6 "?" &&
+      sameToks (twB.eraseIdx 6) (outB.eraseIdx 6) && sameToks (twS.eraseIdx 6) (outS.eraseIdx 6)
+    let fin (s : String) : String :=
+      if s.startsWith "propfail" || agree then s else "diff " ++ " ".intercalate (twB ++ twS)
+    let kt := match (normG v) with
+      | none => "nil"
+      | some gU => (match toQ? gU with | some gq => kindTag gq | none => "nonfinite")
+    fin <|
+    if !sameTok (outB.getD 2 "") (outB.getD 3 "") || !sameTok (outS.getD 2 "") (outS.getD 3 "") then "propfail area-vs-centroidarea" else
+    if !sameTok (outB.getD 5 "") (outB.getD 7 "") || !sameTok (outS.getD 5 "") (outS.getD 7 "") then "propfail distancefrom-vs-withindex" else
+    let brokenImpl := scaleBroken k outB outS
+    let brokenTwin := scaleBroken k twB twS
+    match brokenImpl.filter (fun c => !brokenTwin.contains c) with
+    | c :: _ => s!"propfail scale-invariance {c} {kt}"
+    | [] =>
+      if !brokenImpl.isEmpty || !brokenTwin.isEmpty then "skip scale-inexact" else
+      if (normG v).isNone then "ok triv-nil" else
+      s!"ok scale {kt} {if k < 0 then "down" else "up"}"
+
 def handle (ts : Toks) : String :=
   match ts with
   | op :: rest =>
@@ -659,6 +761,7 @@ def handle (ts : Toks) : String :=
     | "len" => handleLen inp out
     | "dist" => handleDist inp out
     | "seg" => handleSeg inp out
+    | "scale" => handleScale inp out
     | _ => "bad op " ++ op
   | [] => "bad empty"
 
